@@ -181,7 +181,19 @@ void profile_convert(const json& plan, Ctx& ctx) {
 	auto& v0 = nif->GetHeader().GetVersion();
 	if (!(v0.IsSK() || v0.IsSSE())) { ctx.info["rejected_init"] = true; return; }
 	ctx.sig.str(plan["init"].dump());
-	std::vector<ConvSnap> original = captureAll(*nif);
+	// unobserved source: the model that gets converted has not been queried at all (queries fill the partition caches the
+	// conversion would otherwise have to build); what it looked like is observed on a twin built from the same specification
+	const bool unobserved = jbool(plan, "unobserved_source", false);
+	std::vector<ConvSnap> original;
+	if (unobserved) {
+		NifFile twin;
+		Ctx scratch;
+		scratch.property = ctx.property;
+		if (!makeInitial(plan["init"], twin, scratch)) { ctx.info["rejected_init"] = true; return; }
+		original = captureAll(twin);
+		ctx.probe("source_observed_on_a_twin");
+	}
+	else original = captureAll(*nif);
 	int stepNo = 0;
 	for (auto& st : plan["steps"]) {
 		if (g_progress) g_progress->step = stepNo;
@@ -193,7 +205,7 @@ void profile_convert(const json& plan, Ctx& ctx) {
 		if (op == "Convert") {
 			auto& ver = nif->GetHeader().GetVersion();
 			bool toSSE = ver.IsSK();
-			std::vector<ConvSnap> before = captureAll(*nif);
+			std::vector<ConvSnap> before = (unobserved && stepNo == 0) ? original : captureAll(*nif);
 			if (toSSE)
 				for (auto sh : nif->GetShapes())
 					if (auto si = nif->GetHeader().GetBlock<NiSkinInstance>(sh->SkinInstanceRef()))
